@@ -7,6 +7,10 @@ props = [json.loads(l) for l in open(os.path.join(ROOT, "properties.jsonl"))]
 TECH = "TLA+ system spec + TLC exhaustive check of a TLA+ property monitor; monitor pass and trace validation of real executions in TLC"
 TRUST = ("bounded: small constants in TLC; seeded random / enumerated histories on the real code; trusts CPython asyncio loop "
          "semantics (the harness reuses BaseEventLoop._run_once), TLC, and the library codec for building test datagrams")
+FT = ("TLA+ functional specification (Wire.tla) with laws model-checked by TLC on an enumerated boundary domain; "
+      "recorded calls of the real codec evaluated against it in TLC")
+FN = ("TLC is an oracle evaluating a byte-level functional spec, not an explorer of the byte space: inputs beyond the enumerated "
+      "boundary domain are seeded-random / mutation-based; 32-bit fields as 16-bit limbs")
 CLAIMS = {
  "C05": ("model_checking",
          "TLC proves the TLA+ monitor Mon_C05 can never fire on the discovery part of spec/SD.tla (one action per event-loop "
